@@ -12,8 +12,13 @@ Two layers per honest decision:
     finalise  b : b has a supermajority of the received precommits
     prevote / precommit b in a later round : the previous round was completable for the voter and
                   b descends from its estimate (paper: E_{r-1,v})
-    all blocks finalised by honest voters lie on one chain (when 3·|byz| < n)
+    all blocks finalised by honest voters lie on one chain (when every set keeps 3·|byz ∩ set| < |set|)
   A decision outside the rule is reported as `spec=…` (and `kf=` in the known region).
+
+Authority sets: set 0 = keys 0..n-1; `chg b ids` makes block b the handover block of the newest set and `ids`
+the voters of the next one.  A voter's Service counts with the voter list of ITS current set (threshold,
+membership, primary), caps its votes at the pending handover block and enters the next set when it finalises
+that block or a descendant.  The rule checks use the voter set of the round they are about.
 -/
 import Gossamer.Lib.C22Tree
 namespace Gossamer.C22.Sim
@@ -26,9 +31,12 @@ structure Cfg where
   deriving Repr
 
 def Cfg.size (c : Cfg) : Nat := c.ps.length + 1
-def Cfg.voters (c : Cfg) : Voters := ⟨List.range c.n, fun _ => 1, fun v => c.byz.contains v⟩
+/-- the weighted voter set (weights 1) of a list of member keys -/
+def Cfg.voters (c : Cfg) (mem : List Nat) : Voters := ⟨mem, fun _ => 1, fun v => c.byz.contains v⟩
 def Cfg.order (c : Cfg) : BlockOrder Nat := parentOrder c.ps
-def Cfg.minority (c : Cfg) : Bool := decide (3 * c.byz.length < c.n)
+/-- the Byzantine members of a set are less than a third of it -/
+def Cfg.minority (c : Cfg) (mem : List Nat) : Bool :=
+  decide (3 * (mem.filter (fun v => c.byz.contains v)).length < mem.length)
 
 /-! ### association lists standing for the Service's vote maps -/
 
@@ -51,11 +59,11 @@ def total (c : Cfg) (votes : List (Nat × Nat)) (eqs : List Nat) (b : Nat) : Nat
 
 /-- `getPossibleSelectedBlocks`: the directly voted blocks with more than `threshold` votes if there are any,
     otherwise (common ancestors) every block with more than `threshold` votes -/
-def sel (c : Cfg) (votes : List (Nat × Nat)) (eqs : List Nat) : List Nat :=
-  let d := ((votes.map (·.2)).filter (fun b => libSelects c.n (total c votes eqs b))).eraseDups
+def sel (c : Cfg) (n : Nat) (votes : List (Nat × Nat)) (eqs : List Nat) : List Nat :=
+  let d := ((votes.map (·.2)).filter (fun b => libSelects n (total c votes eqs b))).eraseDups
   if !d.isEmpty then d
   else if votes.isEmpty then []
-  else (List.range c.size).filter (fun b => libSelects c.n (total c votes eqs b))
+  else (List.range c.size).filter (fun b => libSelects n (total c votes eqs b))
 
 /-- the loops `if n > highest.Number { highest = … }` -/
 def highest (c : Cfg) (init : Nat) (cands : List Nat) : Nat :=
@@ -70,6 +78,7 @@ def lca (c : Cfg) (a b : Nat) : Nat :=
 /-! ### voters -/
 
 structure Voter where
+  set : Nat := 0                   -- the authority set of the Service
   round : Nat := 1
   head : Nat := 0
   best : Nat := 0
@@ -84,9 +93,12 @@ structure Voter where
   rawPc : Votes Nat := []
   prevPv : Votes Nat := []         -- the same for the previous round, as of the moment it was left
   prevPc : Votes Nat := []
+  hasPrev : Bool := false          -- the voter has left a round
+  prevSet : Nat := 0               -- the authority set of that round
   deriving Repr
 
 structure VMsg where
+  set : Nat
   round : Nat
   stage : Nat     -- 0 prevote, 1 precommit
   voter : Nat
@@ -97,13 +109,16 @@ inductive Op where
   | best (v b : Nat)
   | pv (v : Nat)
   | pc (v : Nat)
-  | bv (stage v r b : Nat)
+  | bv (stage v t r b : Nat)
+  | chg (b : Nat) (ids : List Nat)
   | d (id v : Nat)
   | fin (v : Nat)
   deriving Repr
 
 structure World where
   vs : List Voter                    -- index = voter id (entries of Byzantine ids are unused)
+  sets : List (List Nat)             -- sets[t] = the voters of set t in order
+  changes : List Nat := []           -- changes[t] = the block at which set t hands over to set t+1
   msgs : List (Option VMsg) := []    -- message id → vote, oldest first
   outs : List String := []           -- reversed
   spec : List String := []           -- reversed: the same, with rule violations marked
@@ -119,35 +134,63 @@ def emitViol (w : World) (o : String) (est : Bool) : World :=
   { w with outs := o :: w.outs, spec := (o ++ "!rule") :: w.spec,
            estViol := w.estViol || est, otherViol := w.otherViol || !est }
 
+def members (w : World) (t : Nat) : List Nat := w.sets.getD t []
+
+/-- the handover block a voter still has ahead of its finalised head -/
+def pending? (c : Cfg) (w : World) (v : Voter) : Option Nat :=
+  match w.changes[v.set]? with
+  | some x => if anc c.ps x v.head then none else some x
+  | none => none
+
+/-- the cap of determinePreVote / determinePreCommit: `q` is the block NextGrandpaAuthorityChange is asked about,
+    `b` the vote; the header found by walking up from `b` to the number of the handover block -/
+def capVote (c : Cfg) (w : World) (v : Voter) (q b : Nat) : Nat :=
+  match pending? c w v with
+  | some x => if anc c.ps x q && depth c.ps x < depth c.ps b then up c.ps (depth c.ps b - depth c.ps x) b else b
+  | none => b
+
 /-! ### the abstract rule, evaluated with the definitions of Model/C22 -/
 
-def superB (c : Cfg) (S : Votes Nat) (b : Nat) : Bool := decide (hasSuper c.voters c.order S b)
+def superB (c : Cfg) (mem : List Nat) (S : Votes Nat) (b : Nat) : Bool :=
+  decide (hasSuper (c.voters mem) c.order S b)
 
 /-- the prevote-GHOST of the paper: the highest block with a supermajority -/
-def ghost? (c : Cfg) (S : Votes Nat) : Option Nat :=
-  match (List.range c.size).filter (superB c S) with
+def ghost? (c : Cfg) (mem : List Nat) (S : Votes Nat) : Option Nat :=
+  match (List.range c.size).filter (superB c mem S) with
   | [] => none
   | b :: rest => some (highest c b rest)
 
 /-- the paper's estimate and completability for the votes of the previous round -/
-def estimate? (c : Cfg) (pvs pcs : Votes Nat) : Option (Nat × Bool) :=
-  match ghost? c pvs with
+def estimate? (c : Cfg) (mem : List Nat) (pvs pcs : Votes Nat) : Option (Nat × Bool) :=
+  match ghost? c mem pvs with
   | none => none
   | some g =>
     let chain := (List.range (g + 1)).map (fun k => up c.ps k g)      -- g, parent g, …, 0, 0, …
-    let e := match chain.find? (fun x => possibleW c.voters c.order pcs x) with
+    let e := match chain.find? (fun x => possibleW (c.voters mem) c.order pcs x) with
       | some x => x
       | none => 0
     let children := (List.range c.size).filter (fun x => x != g && x != 0 && par c.ps x == g)
-    let completable := e != g || children.all (fun x => !possibleW c.voters c.order pcs x)
+    let completable := e != g || children.all (fun x => !possibleW (c.voters mem) c.order pcs x)
     some (e, completable)
 
 /-- may a voter that is in round `round` vote for `b`?  (round 1 is the first round) -/
-def extendsEstimate (c : Cfg) (v : Voter) (b : Nat) : Bool :=
-  if v.round ≤ 1 then true
-  else match estimate? c v.prevPv v.prevPc with
+def extendsEstimate (c : Cfg) (w : World) (v : Voter) (b : Nat) : Bool :=
+  if !v.hasPrev then true
+  else match estimate? c (members w v.prevSet) v.prevPv v.prevPc with
     | none => false
     | some (e, completable) => completable && anc c.ps e b
+
+/-- the rules that tie a vote to the handover blocks (Lib/C22Sets `okVote`): never strictly above the handover
+    block of its own set, and above the handover block of the previous set -/
+def okHandover (c : Cfg) (w : World) (v : Voter) (b : Nat) : Bool :=
+  (match pending? c w v with          -- (a change announced at a block the voter has already finalised is not
+   | some x => !anc c.ps x b || anc c.ps b x     --  a pending one: schedules do that only after shrinking)
+   | none => true) &&
+  (match v.set with
+   | 0 => true
+   | p + 1 => match w.changes[p]? with
+     | some x => anc c.ps x b
+     | none => false)
 
 /-! ### steps -/
 
@@ -160,36 +203,49 @@ def stepBest (c : Cfg) (w : World) (i b : Nat) : World :=
 /-- votingRoundHandler(determinePrevote): handleIsPrimary, determinePreVote, store, gossip -/
 def stepPv (c : Cfg) (w : World) (i : Nat) : World :=
   let v := getV w i
-  if v.prevoted then { emit w "skip" with msgs := w.msgs ++ [none] }
+  let mem := members w v.set
+  if !mem.contains i then { emit w "notauth" with msgs := w.msgs ++ [none] }
+  else if v.prevoted then { emit w "skip" with msgs := w.msgs ++ [none] }
   else
-    let primary := v.round % c.n
-    let vote := match aget v.pv primary with
+    let primary := mem.getD (v.round % mem.length) 0
+    -- the primary stores its proposal (the best block, not capped) before determinePreVote reads it back
+    let choice := match aget v.pv primary with
       | some b => if depth c.ps v.head ≤ depth c.ps b then b else v.best
       | none => v.best
-    let v' := { v with pv := aset v.pv i vote, prevoted := true, rawPv := (i, vote) :: v.rawPv }
-    let w' := { setV w i v' with msgs := w.msgs ++ [some ⟨v.round, 0, i, vote⟩] }
-    if extendsEstimate c v vote then emit w' s!"pv={showB vote}" else emitViol w' s!"pv={showB vote}" true
+    let vote := capVote c w v v.best choice
+    let stored := if primary = i then (match aget v.pv i with | some b => b | none => v.best) else vote
+    let v' := { v with pv := aset v.pv i stored, prevoted := true, rawPv := (i, vote) :: v.rawPv }
+    let w' := { setV w i v' with msgs := w.msgs ++ [some ⟨v.set, v.round, 0, i, vote⟩] }
+    let o := s!"pv={showB vote}"
+    if !okHandover c w v vote then emitViol w' o false
+    else if extendsEstimate c w v vote then emit w' o else emitViol w' o true
 
 /-- the gate of finalisationEngine.defineRoundVotes, then votingRoundHandler(determinePrecommit) -/
 def stepPc (c : Cfg) (w : World) (i : Nat) : World :=
   let v := getV w i
-  if !v.prevoted || v.precommitted then { emit w "skip" with msgs := w.msgs ++ [none] }
+  let mem := members w v.set
+  if !mem.contains i then { emit w "notauth" with msgs := w.msgs ++ [none] }
+  else if !v.prevoted || v.precommitted then { emit w "skip" with msgs := w.msgs ++ [none] }
   else
-    let cands := sel c v.pv v.pve
+    let cands := sel c mem.length v.pv v.pve
     if cands.isEmpty then { emit w "wait" with msgs := w.msgs ++ [none] }
     else
       let pvb := highest c v.head cands
-      if !libGate c.n (total c v.pv v.pve pvb) then { emit w "wait" with msgs := w.msgs ++ [none] }
+      if !libGate mem.length (total c v.pv v.pve pvb) then { emit w "wait" with msgs := w.msgs ++ [none] }
       else
-        let v' := { v with pc := aset v.pc i pvb, precommitted := true, rawPc := (i, pvb) :: v.rawPc }
-        let w' := { setV w i v' with msgs := w.msgs ++ [some ⟨v.round, 1, i, pvb⟩] }
-        let o := s!"pc={showB pvb}"
-        if !(superB c v.rawPv pvb && anc c.ps v.head pvb) then emitViol w' o false
-        else if !extendsEstimate c v pvb then emitViol w' o true
+        let vote := capVote c w v pvb pvb
+        let v' := { v with pc := aset v.pc i vote, precommitted := true, rawPc := (i, vote) :: v.rawPc }
+        let w' := { setV w i v' with msgs := w.msgs ++ [some ⟨v.set, v.round, 1, i, vote⟩] }
+        let o := s!"pc={showB vote}"
+        if !(superB c mem v.rawPv vote && anc c.ps v.head vote && okHandover c w v vote) then emitViol w' o false
+        else if !extendsEstimate c w v vote then emitViol w' o true
         else emit w' o
 
-def stepBv (w : World) (stage j r b : Nat) : World :=
-  emit { w with msgs := w.msgs ++ [some ⟨r, stage, j, b⟩] } "ok"
+def stepBv (w : World) (stage j t r b : Nat) : World :=
+  emit { w with msgs := w.msgs ++ [some ⟨t, r, stage, j, b⟩] } "ok"
+
+def stepChg (w : World) (b : Nat) (ids : List Nat) : World :=
+  emit { w with changes := w.changes ++ [b], sets := w.sets ++ [ids] } "ok"
 
 /-- validateVoteMessage -/
 def stepD (c : Cfg) (w : World) (id i : Nat) : World :=
@@ -197,9 +253,11 @@ def stepD (c : Cfg) (w : World) (id i : Nat) : World :=
   | none => emit w "nomsg"
   | some m =>
     let v := getV w i
-    if m.round + 1 < v.round || v.round + 1 < m.round then emit w "round"
+    if m.set ≠ v.set then emit w "set"
+    else if m.round + 1 < v.round || v.round + 1 < m.round then emit w "round"
     else if m.round < v.round then emit w (if m.round = 0 then "err" else "round")
     else if v.round < m.round then emit w "round"
+    else if !(members w v.set).contains m.voter then emit w "notvoter"
     else if m.voter = i then emit w "self"
     else if !anc c.ps v.head m.block then emit w "notdesc"
     else if m.stage = 0 then
@@ -222,31 +280,39 @@ def stepD (c : Cfg) (w : World) (id i : Nat) : World :=
         | none => emit (setV w i { v with pc := aset v.pc m.voter m.block }) "ok"
 
 /-- `getBestFinalCandidate` -/
-def bestFinal (c : Cfg) (v : Voter) : Nat :=
-  let prevoted := highest c v.head (sel c v.pv v.pve)
-  let blocks := sel c v.pc v.pce
+def bestFinal (c : Cfg) (n : Nat) (v : Voter) : Nat :=
+  let prevoted := highest c v.head (sel c n v.pv v.pve)
+  let blocks := sel c n v.pc v.pce
   if blocks.isEmpty then prevoted
   else highest c 0 (blocks.map (fun h => if anc c.ps h prevoted then h else lca c h prevoted))
 
 /-- attemptToFinalize, finalise, initiateRound -/
 def stepFin (c : Cfg) (w : World) (i : Nat) : World :=
   let v := getV w i
-  if !v.precommitted then emit w "skip"
+  let mem := members w v.set
+  if !mem.contains i then emit w "notauth"
+  else if !v.precommitted then emit w "skip"
   else
-    let bfc := bestFinal c v
-    if !libFinalises c.n (total c v.pc v.pce bfc) then emit w "no"
+    let bfc := bestFinal c mem.length v
+    if !libFinalises mem.length (total c v.pc v.pce bfc) then emit w "no"
     else
+      -- finalising the handover block (or a descendant) enacts the change: updateAuthorities restarts at round 1
+      let moves := match w.changes[v.set]? with
+        | some x => anc c.ps x bfc
+        | none => false
       let v' : Voter :=
-        { round := v.round + 1, head := bfc, best := if anc c.ps bfc v.best then v.best else bfc,
-          fins := bfc :: v.fins, prevPv := v.rawPv, prevPc := v.rawPc }
+        { set := if moves then v.set + 1 else v.set, round := if moves then 1 else v.round + 1,
+          head := bfc, best := if anc c.ps bfc v.best then v.best else bfc,
+          fins := bfc :: v.fins, prevPv := v.rawPv, prevPc := v.rawPc, hasPrev := true, prevSet := v.set }
       let o := s!"fin={showB bfc}"
-      if superB c v.rawPc bfc then emit (setV w i v') o else emitViol (setV w i v') o false
+      if superB c mem v.rawPc bfc then emit (setV w i v') o else emitViol (setV w i v') o false
 
 def step (c : Cfg) (w : World) : Op → World
   | .best i b => stepBest c w i b
   | .pv i => stepPv c w i
   | .pc i => stepPc c w i
-  | .bv st j r b => stepBv w st j r b
+  | .bv st j t r b => stepBv w st j t r b
+  | .chg b ids => stepChg w b ids
   | .d id i => stepD c w id i
   | .fin i => stepFin c w i
 
@@ -263,12 +329,12 @@ structure Result where
   kf : Option String
 
 def run (c : Cfg) (ops : List Op) : Result :=
-  let w0 : World := { vs := List.replicate c.n {} }
+  let w0 : World := { vs := List.replicate c.n {}, sets := [List.range c.n] }
   let w := ops.foldl (step c) w0
   let safe := safeB c w
   let model := String.intercalate ";" (w.outs.reverse ++ [if safe then "safe=1" else "safe=0"])
   -- what the property demands: every decision inside the rule, and safety under a Byzantine minority
-  let specSafe := if c.minority then "safe=1" else (if safe then "safe=1" else "safe=0")
+  let specSafe := if w.sets.all c.minority then "safe=1" else (if safe then "safe=1" else "safe=0")
   let spec := String.intercalate ";" (w.spec.reverse ++ [specSafe])
   let kf := if w.estViol && !w.otherViol then some "c22-prevote-ignores-estimate" else none
   ⟨model, spec, kf⟩
